@@ -102,8 +102,25 @@ class Gen:
         x = self.pick(VAR_NAMES)
         return "%s as $%s | %s" % (self.sub(sc, d), x, self.term(sc.with_var(x), d - 1))
 
+    def pattern(self, sc, d, x, y):
+        keyrefs = ['"a"', '"b","a"', '"k"']
+        if sc.vars:
+            keyrefs += ["$" + sc.vars[-1], "$" + sc.vars[0], '($%s | tostring)' % sc.vars[-1]]
+        for name, kinds in sc.funs[-3:]:
+            if len(kinds) == 0:
+                keyrefs += [name, "(%s | tostring)" % name]
+        keyrefs.append("(%s)" % self.term(sc, d - 2))
+        k1, k2 = self.pick(keyrefs), self.pick(keyrefs)
+        pats = ["[$%s, $%s]" % (x, y), "{a: $%s, b: [$%s]}" % (x, y), "{$%s, c: $%s}" % (x, y), "[[$%s], {a: $%s}]" % (x, y),
+                "{(%s): $%s, \"k\": $%s}" % (k1, x, y), "{(%s): $%s}" % (k1, x), "{(%s): [$%s], (%s): $%s}" % (k1, x, k2, y),
+                "[{(%s): $%s}, $%s]" % (k1, x, y), "$%s" % x]
+        return self.pick(pats)
+
     def pattern_bind(self, sc, d):
         x, y = self.pick(VAR_NAMES), self.pick(VAR_NAMES)
+        if self.rng.random() < 0.6:
+            src = self.pick(['[1,[2]]', '{"a":1,"b":[2],"c":3}', '[[1],{"a":2}]', ".", '{"a":[1,2],"b":[3],"k":4,"c":5}', '[{"a":7,"b":8},9]', self.sub(sc, d)])
+            return "%s as %s | %s" % (src, self.pattern(sc, d, x, y), self.term(sc.with_var(x, y), d - 1))
         pats = ["[$%s, $%s]" % (x, y), "{a: $%s, b: [$%s]}" % (x, y), "{$%s, c: $%s}" % (x, y), "[[$%s], {a: $%s}]" % (x, y),
                 "{(%s): $%s, \"k\": $%s}" % (self.pick(['"a"', '"b","a"', "$" + sc.vars[-1] if sc.vars else '"a"']), x, y)]
         src = self.pick(['[1,[2]]', '{"a":1,"b":[2],"c":3}', '[[1],{"a":2}]', ".", '{"a":[1,2],"b":[3],"k":4,"c":5}', self.sub(sc, d)])
@@ -167,6 +184,19 @@ class Gen:
 
     def fold(self, sc, d):
         x = self.pick(VAR_NAMES)
+        if self.rng.random() < 0.35:
+            y = self.pick(VAR_NAMES)
+            pat = self.pattern(sc, d, x, y)
+            src = self.pick(['({"a":1,"b":2,"k":3}, {"a":[4],"b":5,"k":6})', '([1,[2]], [3,[4]])', ".[]?", '([{"a":7,"b":8},9], [{"a":[1],"b":2},3])'])
+            inner = sc.with_var(x, y)
+            upd = self.pick(["[., $%s, $%s]" % (x, y), ". + 1", "$" + y, self.term(inner, d - 2)])
+            init = self.pick(["0", "null", "[]", "."])
+            r = self.rng.random()
+            if r < 0.5:
+                return "reduce %s as %s (%s; %s)" % (src, pat, init, upd)
+            if r < 0.75:
+                return "foreach %s as %s (%s; %s)" % (src, pat, init, upd)
+            return "foreach %s as %s (%s; %s; %s)" % (src, pat, init, upd, self.pick(["[$%s, .]" % x, "$" + y, self.term(inner, d - 2)]))
         src = self.pick([".[]?", "(1,2,3)", "range(3)", self.sub(sc, d), "empty", '("a","b")'])
         inner = sc.with_var(x)
         upd = self.pick([". + $" + x, "[., $" + x + "]", "., ($" + x + ")", "empty", "if . then $%s else . end" % x, self.term(inner, d - 2), ".+1"])
@@ -257,8 +287,21 @@ class Gen:
                 "if (type == \"number\") and . < 2 then (. + 1) as $x | ($x | %s) else [.] end",
                 "(if type == \"number\" then . else 0 end) as $n | if $n < 3 then ($n + 1 | %s) // 5 else $n end",
                 "if (type == \"number\") and . < 3 then 1 + (. + 1 | %s) else 0 end",
+                "if (type == \"number\") and . < 3 then try (. + 1 | %s) catch \"c:\\(.)\" else error(\"boom\") end",
+                "if (type == \"number\") and . < 2 then (. + 1 | %s)? else error(\"deep\") end",
+                "if (type == \"number\") and . < 3 then (label $l | (. + 1 | %s), break $l, 7) else ., error(\"end\") end",
+                "if (type == \"number\") and . < 3 then first(. + 1 | %s) else (., 99) end",
+                "if (type == \"number\") and . < 3 then (. + 1 | %s) // \"alt\" else false, null end",
+                "if (type == \"number\") and . < 3 then foreach (1, 2) as $i (.; . + 1; if $i == 2 then %s else . end) else . end",
+                "if (type == \"number\") and . < 3 then [. + 1 | %s] else . end",
+                "if (type == \"number\") and . < 3 then def inner: (. + 1 | %s); try inner catch \"i:\\(.)\" else error(\"x\") end",
+                "if (type == \"number\") and . < 3 then reduce (. + 1 | %s) as $r (0; . + ($r | tostring | length)) else 10, 20 end",
             ])
             body = tmpl % call
+            if self.rng.random() < 0.65:
+                outer_call = self.call_of(sc.with_fun(name, kinds), name, kinds, d - 2)
+                wrap = self.pick(["(%s | %s)", "[%s | %s]", "try (%s | %s) catch \"outer:\\(.)\"", "first(%s | %s)", "(%s | %s), 5", "[limit(3; %s | %s)]"])
+                return "def %s: %s; %s" % (sig, body, wrap % (self.pick(["0", "1", "2", ".", "[1,2,3]"]), outer_call))
         else:
             body = self.term(inner, d - 2)
         rest = self.term(sc.with_fun(name, kinds), d - 1)
